@@ -182,7 +182,7 @@ theorem stepSpawn_G1 {r : Fin n} {s s' : St n} (h : G1 r s) (v p : Fin n) (hs : 
   unfold stepSpawn at hs
   split at hs
   · rename_i hg
-    obtain ⟨hav, hap, hvr, hvp, hqv, hov, _, _, _, hpend, hment, hnoch⟩ := hg
+    obtain ⟨hav, hap, hvr, hvp, hqv, hov, _, _, _, _, hpend, hment, hnoch⟩ := hg
     cases hs
     exact h.spawn v p hav hap hvr hvp hqv hov hpend hment hnoch rfl rfl rfl rfl rfl rfl rfl rfl
   · cases hs
